@@ -23,15 +23,28 @@ def gen_expr(rnd, nm, depth):
     r = rnd.random()
     if depth == 0 or r < 0.35:
         r2 = rnd.random()
-        if r2 < 0.65: return {"op": "gen", "mode": rnd.randrange(nm), "cr": rnd.random() < 0.5}
-        if r2 < 0.9: return {"op": "num", "mode": rnd.randrange(nm)}
+        if r2 < 0.6: return {"op": "gen", "mode": rnd.randrange(nm), "cr": rnd.random() < 0.5}
+        if r2 < 0.8: return {"op": "num", "mode": rnd.randrange(nm)}
+        if r2 < 0.9: return {"op": "fnum", "mode": rnd.randrange(nm), "kind": rnd.choice(FKINDS)}       # a function of a number operator
         return {"op": "const", "val": f"{rnd.choice([2, -1, 3])}/1,0/1"}
     if r < 0.75: return {"op": "mul", "args": [gen_expr(rnd, nm, depth - 1) for _ in range(rnd.randint(2, 3))]}
     if r < 0.9: return {"op": "add", "args": [gen_expr(rnd, nm, depth - 1) for _ in range(2)]}
     return {"op": "adj", "arg": gen_expr(rnd, nm, depth - 1)}
 
+FKINDS = ["pow2", "inv", "abs", "sq"]
+def fnum_value(kind, n):
+    if kind == "pow2": return Fraction(2) ** n
+    if kind == "inv": return Fraction(2, 2 * n + 1)
+    if kind == "abs": return Fraction(abs(n - 1))
+    return Fraction(n + 1) ** 2
+def fnum_expr(kind, N):
+    if kind == "pow2": return sympy.Integer(2) ** N
+    if kind == "inv": return 1 / (N + sympy.Rational(1, 2))
+    if kind == "abs": return sympy.Abs(N - 1)
+    return (N + 1) ** 2
+
 def gen_leaf(rnd, nm, p_num=0.3):
-    if rnd.random() < p_num: return {"op": "num", "mode": rnd.randrange(nm)}
+    if rnd.random() < p_num: return {"op": "num", "mode": rnd.randrange(nm)} if rnd.random() < 0.7 else {"op": "fnum", "mode": rnd.randrange(nm), "kind": rnd.choice(FKINDS)}
     return {"op": "gen", "mode": rnd.randrange(nm), "cr": rnd.random() < 0.5}
 
 def gen_word_pair(rnd, nm):
@@ -59,6 +72,7 @@ def build(e, ops):
     op = e["op"]
     if op == "gen": return NOF.from_expr(Dagger(ops[e["mode"]]) if e["cr"] else ops[e["mode"]], ops)
     if op == "num": return NOF.from_expr(NumberOperator(ops[e["mode"]]), ops)
+    if op == "fnum": return NOF.from_expr(fnum_expr(e["kind"], NumberOperator(ops[e["mode"]])), ops)
     if op == "const":
         re = e["val"].split(",")[0]; a, b = re.split("/"); return NOF.from_expr(sympy.Rational(int(a), int(b)), ops)
     if op == "mul":
@@ -77,6 +91,7 @@ def oracle(e, modes, vec):
     op = e["op"]
     if op == "gen": return apply_gen(modes, e["mode"], e["cr"], vec)
     if op == "num": return {s: a * s[e["mode"]] for s, a in vec.items() if s[e["mode"]] != 0}
+    if op == "fnum": return {s: a * fnum_value(e["kind"], s[e["mode"]]) for s, a in vec.items() if fnum_value(e["kind"], s[e["mode"]]) != 0}
     if op == "const":
         a, b = e["val"].split(",")[0].split("/"); c = Fraction(int(a), int(b)); return {s: x * c for s, x in vec.items()}
     if op == "mul":
@@ -93,7 +108,7 @@ def oracle(e, modes, vec):
 def adj_expr(e):
     op = e["op"]
     if op == "gen": return {"op": "gen", "mode": e["mode"], "cr": not e["cr"]}
-    if op in ("num", "const"): return e
+    if op in ("num", "const", "fnum"): return e
     if op == "mul": return {"op": "mul", "args": [adj_expr(a) for a in reversed(e["args"])]}
     if op == "add": return {"op": "add", "args": [adj_expr(a) for a in e["args"]]}
     if op == "adj": return e["arg"]
